@@ -1,4 +1,9 @@
+#[cfg(not(multiqueue2_verif))]
 use std::sync::atomic::{AtomicUsize, Ordering};
+#[cfg(multiqueue2_verif)]
+use crate::verif_hooks::AtomicUsize;
+#[cfg(multiqueue2_verif)]
+use std::sync::atomic::Ordering;
 
 const UPDATE_EPOCH: usize = 1;
 const NO_READER: usize = 1 << 1;
